@@ -312,7 +312,7 @@ def err(v=TOP):
 class CallInfo:
     """A call site as seen by rules."""
     __slots__ = ('fn', 'bb', 'term', 'path', 'npath', 'name', 'trait', 'resolved', 'nresolved', 'gargs',
-                 'span', 'dest_ty', 'arg_tys', 'func', 'depth')
+                 'span', 'dest_ty', 'arg_tys', 'func', 'depth', 'args')
 
     def __init__(self, fn, bb, term, depth):
         f = term['func']
@@ -856,6 +856,8 @@ class Interp:
                         return [(w, mk_int(r[1] ^ b for b in x[1]))]
                 return [(w, top_of_type(rv['xty']))]
             if op == 'PtrMetadata':
+                if x[0] == 'slc':
+                    return [(w, x[2])]
                 if x[0] == 'cstr':
                     return [(w, const_int(len(x[1])))]
                 if x[0] == 'sliceref':
@@ -868,6 +870,11 @@ class Interp:
             x = self.operand(w, depth, rv['op'])
             kind = rv['kind']
             if kind == 'IntToInt':
+                if is_symbolic(x):
+                    fr, to = ty_int_range(rv.get('from')), ty_int_range(rv['ty'])
+                    if fr and to and to[0] <= fr[0] and to[1] >= fr[1]:
+                        return [(w, x)]
+                    return [(w, top_of_type(rv['ty']))]
                 if x[0] == 'pred':
                     x = BOOL
                 if x[0] == 'int':
@@ -881,6 +888,13 @@ class Interp:
                             return [(w, x)]
                         return [(w, top_of_type(rv['ty']))]
                 return [(w, top_of_type(rv['ty']))]
+            if kind == 'PointerCoercion(Unsize)' and x[0] == 'ref' and x[1][0] not in ('const', 'val'):
+                ft = rv.get('from') or {}
+                while ft.get('k') == 'ref':
+                    ft = ft['to']
+                if ft.get('k') == 'array' and ft.get('len') is not None:
+                    # &[T; N] -> &[T]: a slice over the whole array cell, of known length
+                    return [(w, ('sliceref', x[1], const_int(0), const_int(ft['len'])))]
             if kind.startswith('PointerCoercion') or kind in ('PtrToPtr', 'Transmute'):
                 # unsizing &[u8; N] -> &[u8], &mut T -> *mut T, str <-> [u8] transmutes: same abstract reference
                 return [(w, x)]
@@ -913,7 +927,7 @@ class Interp:
             a = BOOL
         if b[0] == 'pred':
             b = BOOL
-        if op in _CMP and (a[0] in ('sym', 'symoff') or b[0] in ('sym', 'symoff')) \
+        if op in _CMP and (is_symbolic(a) or is_symbolic(b)) \
                 and self.rule is not None and hasattr(self.rule, 'on_symbranch'):
             return [(w, ('symcmp', op, a, b))]
         if op in _CMP:
@@ -949,7 +963,25 @@ class Interp:
                     if res == {False}:
                         return [(w, FALSE)]
             return [(w, BOOL)]
-        if a[0] in ('sym', 'symoff') and b[0] == 'int' and int_singleton(b) is not None \
+        base_op = op.replace('WithOverflow', '').replace('Unchecked', '')
+        if (is_symbolic(a) or is_symbolic(b)) and base_op in ('Add', 'Sub', 'Mul'):
+            la, lb = to_lin(a), to_lin(b)
+            v = None
+            if la is not None and lb is not None:
+                if base_op == 'Add':
+                    v = from_lin(lin_add(la, lb, 1))
+                elif base_op == 'Sub':
+                    v = from_lin(lin_add(la, lb, -1))
+                elif not la[0]:
+                    v = from_lin((tuple((k, n * la[1]) for k, n in lb[0]), lb[1] * la[1]))
+                elif not lb[0]:
+                    v = from_lin((tuple((k, n * lb[1]) for k, n in la[0]), la[1] * lb[1]))
+            if v is None:
+                v = top_of_type(lty) if lty else TOP
+            if op.endswith('WithOverflow'):
+                return [(w, ('tuple', (v, FALSE)))]
+            return [(w, v)]
+        if False and a[0] in ('sym', 'symoff') and b[0] == 'int' and int_singleton(b) is not None \
                 and op.replace('WithOverflow', '') in ('Add', 'Sub'):
             base = a[1]
             k = a[2] if a[0] == 'symoff' else 0
@@ -992,6 +1024,9 @@ class Interp:
             if vs is not None and v[2] < len(vs):
                 return [(w, const_int(vs[v[2]][2]))]
             return [(w, const_int(v[2]))]
+        if v[0] == 'optsym':
+            # an Option whose payload, if any, is the named symbolic atom
+            return [(self.write(w, t, none()), const_int(0)), (self.write(w, t, some(('sym', v[1]))), const_int(1))]
         if npath is None:
             return [(w, TOP)]
         vs = self.adt_variants(npath)
@@ -1050,6 +1085,10 @@ class Interp:
                     ow = nw.drop_frame(depth)
                     exits[(ow.key(), rv)] = (ow, rv)
                 else:
+                    if self.rule is not None and hasattr(self.rule, 'on_edge'):
+                        nw = self.rule.on_edge(self, fn, bb, nbb, nw, depth)
+                        if nw is None:
+                            continue
                     work.append((nbb, nw))
         res = list(exits.values())
         self.memo[mk] = res
@@ -1097,7 +1136,12 @@ class Interp:
                     tgt = self.resolve(w2, depth, t['dest'])
                     out.append((t['t'], self.write(w2, tgt, rv)))
             elif k == 'assert':
-                out.append((t['t'], cw))
+                if self.rule is not None and hasattr(self.rule, 'on_assert'):
+                    w2 = self.rule.on_assert(self, cw, fn, bb, t, depth)
+                    if w2 is not None:
+                        out.append((t['t'], w2))
+                else:
+                    out.append((t['t'], cw))
             elif k == 'drop':
                 out.append((t['t'], cw))
             elif k in ('unreachable', 'resume', 'terminate'):
@@ -1173,6 +1217,7 @@ class Interp:
     def do_call(self, fn, bb, w, depth, t):
         ci = CallInfo(fn, bb, t, depth)
         args = [self.operand(w, depth, a) for a in t['args']]
+        ci.args = args
         if ci.path is None:
             # indirect call through a value
             fv = self.operand(w, depth, t['func']['indirect'])
@@ -1266,7 +1311,14 @@ class Interp:
         # havoc everything reachable through `&mut` arguments
         for a, ty in zip(args, ci.arg_tys):
             if ty.get('k') == 'ref' and ty.get('mut') and a[0] == 'ref' and a[1][0] not in ('const', 'val'):
-                w = self.write(w, a[1], TOP)
+                nv = TOP
+                if self.rule is not None and hasattr(self.rule, 'havoc_value'):
+                    w, nv = self.rule.havoc_value(self, w, ci, a[1], self.read(w, a[1]))
+                w = self.write(w, a[1], nv)
+        if self.rule is not None and hasattr(self.rule, 'opaque_result'):
+            r = self.rule.opaque_result(self, w, ci)
+            if r is not None:
+                return r
         return [(w, top_of_type(ci.dest_ty))]
 
     # ---- helpers for rules ----
@@ -1275,6 +1327,8 @@ class Interp:
         v = self.read(w, target)
         if v[0] == 'adt':
             return [(w, v)]
+        if v[0] == 'optsym':
+            return [(self.write(w, target, x) if target is not None else w, x) for x in (none(), some(('sym', v[1])))]
         vs = self.adt_variants(ty_npath)
         if vs is None:
             return [(w, v)]
@@ -1287,10 +1341,47 @@ class Interp:
     def split_value(self, v, ty_npath):
         if v[0] == 'adt':
             return [v]
+        if v[0] == 'optsym':
+            return [none(), some(('sym', v[1]))]
         vs = self.adt_variants(ty_npath)
         if vs is None:
             return [v]
         return [('adt', ty_npath, idx, (TOP,) * nf) for idx, (name, nf, discr) in enumerate(vs)]
+
+
+def to_lin(v):
+    """abstract value -> linear form (items, const) or None"""
+    if v[0] == 'int':
+        n = int_singleton(v)
+        return ((), n) if n is not None else None
+    if v[0] == 'sym':
+        return (((v[1], 1),), 0)
+    if v[0] == 'symoff':
+        return (((v[1], 1),), v[2])
+    if v[0] == 'lin':
+        return (v[1], v[2])
+    return None
+
+
+def from_lin(l):
+    items, c = l
+    items = tuple(sorted((k, n) for k, n in items if n != 0))
+    if not items:
+        return const_int(c)
+    if len(items) == 1 and items[0][1] == 1:
+        return ('symoff', items[0][0], c) if c != 0 else ('sym', items[0][0])
+    return ('lin', items, c)
+
+
+def lin_add(a, b, sign=1):
+    d = dict(a[0])
+    for k, v in b[0]:
+        d[k] = d.get(k, 0) + sign * v
+    return (tuple(sorted((k, v) for k, v in d.items() if v != 0)), a[1] + sign * b[1])
+
+
+def is_symbolic(v):
+    return v[0] in ('sym', 'symoff', 'lin')
 
 
 def join(a, b):
